@@ -46,6 +46,10 @@ def compare(rec, m, selection, default=False, expand=None, visit=None, relations
             e2 = View(m, selection, default, model_expand, quirks=combo).observe(relations)
             if diff(e2, real) is None:
                 for q in combo:
+                    if quirks[q] is None:
+                        # a mechanism that another property owns (and reports): only counted here
+                        rec.event('foreign-mechanism.' + q)
+                        continue
                     rec.violation(quirks[q], f'{label} scope={"default" if default else selection}: {fmt(d, 300)}',
                                   {'path': d[0]})
                 return False
